@@ -347,6 +347,10 @@ func runC19(c *Ctx, r *Report, tier string) {
 		}
 	}
 	if dupCl == nil {
+		// the walk over the nested groups written out as a local recursive closure
+		dupCl = localGroupWalk(c, dup)
+	}
+	if dupCl == nil {
 		r.Fail("CHECKS", c.fname(dup), "duplicate scan", "", "checkForDuplicateFlags does not iterate eachGroup with a closure (nested groups are not covered)")
 	} else {
 		dn := c.fname(dupCl)
@@ -808,4 +812,81 @@ func (c *Ctx) constArgsOfParam(v ssa.Value) ([]string, bool) {
 		out = append(out, k)
 	}
 	return out, true
+}
+
+// localGroupWalk: an anonymous function of fn, held in a local variable, that fn calls on its receiver and
+// that calls itself on every element of its parameter's Group.groups — eachGroup written out in place.
+func localGroupWalk(c *Ctx, fn *ssa.Function) *ssa.Function {
+	// the closure stored (once) into a local variable of fn
+	holder := func(v ssa.Value) *ssa.Function {
+		u, ok := v.(*ssa.UnOp)
+		if !ok || u.Op != token.MUL {
+			return nil
+		}
+		cell := u.X
+		if fv, ok := cell.(*ssa.FreeVar); ok {
+			// the captured variable of the enclosing function
+			par := fv.Parent()
+			idx := -1
+			for i, x := range par.FreeVars {
+				if x == fv {
+					idx = i
+				}
+			}
+			cell = nil
+			for _, b := range fn.Blocks {
+				for _, in := range b.Instrs {
+					if mc, ok := in.(*ssa.MakeClosure); ok && mc.Fn == par && idx >= 0 && idx < len(mc.Bindings) {
+						cell = mc.Bindings[idx]
+					}
+				}
+			}
+		}
+		al, ok := cell.(*ssa.Alloc)
+		if !ok || al.Parent() != fn || al.Referrers() == nil {
+			return nil
+		}
+		var got *ssa.Function
+		n := 0
+		for _, ref := range *al.Referrers() {
+			if st, ok := ref.(*ssa.Store); ok && st.Addr == al {
+				n++
+				if mc, ok := st.Val.(*ssa.MakeClosure); ok {
+					got, _ = mc.Fn.(*ssa.Function)
+				}
+			}
+		}
+		if n != 1 {
+			return nil
+		}
+		return got
+	}
+	for _, an := range fn.AnonFuncs {
+		if len(an.Params) != 1 || typeName(an.Params[0].Type()) != "Group" {
+			continue
+		}
+		rooted, recursive := false, false
+		for _, b := range fn.Blocks {
+			for _, in := range b.Instrs {
+				if call, ok := in.(*ssa.Call); ok && call.Call.StaticCallee() == nil && holder(call.Call.Value) == an && len(call.Call.Args) == 1 && c.term(call.Call.Args[0]) == "P0" {
+					rooted = true
+				}
+			}
+		}
+		for _, b := range an.Blocks {
+			for _, in := range b.Instrs {
+				if call, ok := in.(*ssa.Call); ok && call.Call.StaticCallee() == nil && holder(call.Call.Value) == an && len(call.Call.Args) == 1 {
+					if strings.HasPrefix(c.term(call.Call.Args[0]), "idx(Group.groups(P0), ") {
+						if _, inLoop := c.Requires(an, isInstr(call), func(l Lit) bool { return strings.Contains(l.Term, "len(Group.groups(P0))") }, nil); inLoop {
+							recursive = true
+						}
+					}
+				}
+			}
+		}
+		if rooted && recursive {
+			return an
+		}
+	}
+	return nil
 }
